@@ -73,8 +73,6 @@ THEOREMS = [
     "SynKit.ReprOpt.itsToGmlX_roundtrip_partial",
     "SynKit.ReprOpt.itsToGmlX_roundtrip_reindex",
     "SynKit.ReprOpt.itsToGmlX_roundtrip",
-    "SynKit.ReprOpt.itsToGmlX_roundtrip_reindex_iff",
-    "SynKit.ReprOpt.freshAbove_of_ids_pos",
 ]
 
 NODE_KEYS = ["element", "aromatic", "hcount", "charge", "neighbors", "atom_map"]
@@ -1508,7 +1506,11 @@ def one_export_x(ctx, B, case, gml, srcj, core, reindex, name, Lj, Rj, backj):
     B.add({"cmd": "gml.shape", "its": srcj}, lambda rep: st.__setitem__("shape", rep))
     ids = node_order(srcj)
     n = len(ids)
-    inv = (lambda x: ids[x - 1] if 1 <= x <= n else x) if reindex else (lambda x: x)
+    # reindex=True: the atoms are 1..n (position in the node list + 1) and the writer expands the hydrogens AFTER the renumbering, so
+    # the new hydrogens are n+1, ...; undo the renumbering on the atoms and move the hydrogens above the original ids (an original id
+    # may well lie in n+1.. when the ids are sparse)
+    top = max(ids, default=0)
+    inv = (lambda x: ids[x - 1] if 1 <= x <= n else (top + (x - n) if x > n else x)) if reindex else (lambda x: x)
     rel = relabel_json(backj, inv)
     orig = set(ids)
     sub = {"nodes": [x for x in rel["nodes"] if x[0] in orig], "edges": [e for e in rel["edges"] if e[0] in orig and e[1] in orig]}
@@ -1516,7 +1518,7 @@ def one_export_x(ctx, B, case, gml, srcj, core, reindex, name, Lj, Rj, backj):
     # expected hydrogens: the counts of the exported graph (the centre carries none)
     want = {nid: hcount_of(a) for nid, a in srcj["nodes"]}
     problems = []
-    if len({x[0] for x in rel["nodes"]}) != len(rel["nodes"]) or (reindex and min(ids, default=1) < 1):
+    if len({x[0] for x in rel["nodes"]}) != len(rel["nodes"]):
         problems.append("node ids collide after undoing the re-indexing")
     hang = {}
     for nid, a in extras:
@@ -1753,15 +1755,15 @@ def its_from_json(j):
     return G
 
 
-F44_CLASS = "explicit_h_reindex_id_collision"
-
 
 def f44_probe(ctx):
-    """Finding F44 (theorem `itsToGmlX_roundtrip_reindex_iff`: with explicit_hydrogen=True and reindex=True the round trip holds
-    exactly when every fresh hydrogen id lies above the number of atoms).  Two fixed inputs: a C-O bond-forming ITS with one
-    hydrogen on each atom, atom ids (0, 1) [the fresh hydrogen ids 2, 3 collide with the renumbered atoms 1, 2] and the same with
-    ids (1, 2) [control, must round-trip].  The demand is C10's own: the heavy atoms and the bond between them survive
-    ITS -> GML -> ITS."""
+    """Fixed regression for finding F44 (repaired by notes/draft-fixes/0023-explicit-hydrogen-after-reindex.patch; theorem
+    `itsToGmlX_roundtrip`: with explicit_hydrogen=True the round trip holds for both values of reindex, no condition on the ids).
+    NXToGML.transform used to add the explicit hydrogens (ids maxId+1, ...) BEFORE renumbering the atoms 1..n, so a fresh hydrogen
+    id <= n collided with a renumbered atom; it now renumbers first and expands afterwards.  Two fixed inputs: a C-O bond-forming
+    ITS with one hydrogen on each atom, atom ids (0, 1) [the former failing input: the fresh ids 2, 3 met the renumbered atoms
+    1, 2 and the oxygen was lost] and the same with ids (1, 2).  Both must round-trip; a failure on either is a plain violation
+    (no known-finding class).  The demand is C10's own: the heavy atoms and the bond between them survive ITS -> GML -> ITS."""
     import networkx as nx
     from synkit.IO.chem_converter import its_to_gml, gml_to_its
 
@@ -1786,8 +1788,7 @@ def f44_probe(ctx):
             ok, got = False, {"raised": repr(e)[:200]}
         if not ok:
             ctx.violation("ITS -> GML (reindex=True, explicit_hydrogen=True) -> ITS does not keep the atoms and the changed bond",
-                          {"kind": "f44", "ids": list(ids)}, dict(got, stream="f44-probe"),
-                          classes=[F44_CLASS] if ids == (0, 1) else [])
+                          {"kind": "f44", "ids": list(ids)}, dict(got, stream="f44-probe"), classes=[])
 
 
 def run(ctx):
